@@ -791,6 +791,15 @@ func NewSupplyQueriesMonitor(e *Env) *Monitor {
 			return
 		}
 		locked := lockedRes.Amount.Amount
+		// the figure that is subtracted must BE the total locked eFUND: what the escrow account holds
+		// and what the per-account records add up to
+		sumLocked := math.ZeroInt()
+		for _, l := range o.LockedList {
+			sumLocked = sumLocked.Add(l.Amount.Amount)
+		}
+		if esc := o.Accts[lab.ModAddr("enterprise").String()].Bal.AmountOf(native); !locked.Equal(esc) || !locked.Equal(sumLocked) {
+			viol("locked-figure-vs-escrow", "native", "the total locked eFUND used for the supply figures is %s, the escrow account holds %s and the per-account records add up to %s", locked, esc, sumLocked)
+		}
 		wantNative := bankSupply.AmountOf(native).Sub(locked)
 		state := "zero-locked"
 		if locked.IsPositive() {
